@@ -128,6 +128,20 @@ theorem flip (h : RA E A x y) : RA (fun a b => E b a) A y x := by
   | refl hx => exact refl hx
   | @step x w y hx he _ ih => exact ih.trans (step (dst_not ih) he (refl hx))
 
+/-- a walk none of whose vertices is in `B` avoids `B` -/
+theorem avoid (h : RA E A x y) (hB : ∀ p, RA E A x p → RA E A p y → ¬ B p) : RA E B x y := by
+  induction h with
+  | refl hx => exact refl (hB _ (refl hx) (refl hx))
+  | @step x w y hx he hwy ih =>
+    refine step (hB x (refl hx) (step hx he hwy)) he (ih ?_)
+    intro p hwp hpy
+    exact hB p (step hx he hwp) hpy
+
+theorem bounded {n : Nat} (hn : ∀ a b, E a b → b < n) (h : RA E A x y) (hx : x < n) : y < n := by
+  induction h with
+  | refl _ => exact hx
+  | step _ he _ ih => exact ih (hn _ _ he)
+
 theorem congr (hAB : ∀ v, A v ↔ B v) : RA E A x y ↔ RA E B x y :=
   ⟨mono (fun v => (hAB v).2), mono (fun v => (hAB v).1)⟩
 
@@ -537,6 +551,288 @@ theorem unv_le (n : Nat) (vis : List Nat) : unv n vis ≤ n := by
 
 theorem fuel_ge (g : Graph) (vis : List Nat) : unv g.n vis ≤ g.fuel :=
   Nat.le_trans (unv_le g.n vis) (by unfold Graph.fuel; omega)
+
+/-! ### first pass: the stack after `for vertex_id in graph.vertex_ids()` -/
+
+/-- what the second pass needs to know about the stack `S` left by the first pass (head = top) -/
+structure StackOk (g : Graph) (S : List Nat) : Prop where
+  nodup : S.Nodup
+  mem : ∀ y, y ∈ S ↔ y < g.n
+  order : ∀ x ∈ S, ∀ y, g.Reach x y →
+    ∃ z ∈ S, g.Reach z x ∧ g.Reach x z ∧ S.idxOf z ≤ S.idxOf y
+
+theorem pass1_spec {g : Graph} (h : g.WF) : ∃ vis S, pass1 g = .ok (vis, S) ∧ StackOk g S := by
+  obtain ⟨new, vis', hr, _, hs⟩ :=
+    forEach_spec (h.dfs_ok g.fuel) some (List.range g.n) [] []
+      (fun x hx => ⟨x, rfl, List.mem_range.1 hx⟩) (fuel_ge g [])
+  have hs' : SpecN g.Edge (List.range g.n) (fun _ => False) new := by
+    have := hs.congr (B := fun _ => False) (fun v => by simp)
+    simpa using this
+  refine ⟨vis', new, by simpa [pass1] using hr, hs'.nodup, ?_, ?_⟩
+  · intro y
+    rw [hs'.reach y]
+    constructor
+    · rintro ⟨w, hw, hr⟩
+      exact h.reach_lt ((reach_iff_RA g w y).2 hr) (List.mem_range.1 hw)
+    · intro hy
+      exact ⟨y, List.mem_range.2 hy, RA.refl (fun h => h)⟩
+  · intro x hx y hxy
+    obtain ⟨z, hz, h1, h2, h3⟩ := hs'.order x hx y ((reach_iff_RA g x y).1 hxy)
+    exact ⟨z, hz, (reach_iff_RA g z x).2 h1, (reach_iff_RA g x z).2 h2, h3⟩
+
+/-! ### second pass -/
+
+/-- `c` is a mutual-reachability class, listed without repetition -/
+def IsClass (g : Graph) (c : List Nat) : Prop :=
+  c ≠ [] ∧ c.Nodup ∧ ∀ u ∈ c, ∀ v, v ∈ c ↔ (g.Reach u v ∧ g.Reach v u)
+
+/-- `cs` lists the mutual-reachability classes of the vertices `0 .. n-1`, each once -/
+structure Good (g : Graph) (cs : List (List Nat)) : Prop where
+  classes : ∀ c ∈ cs, IsClass g c
+  disjoint : cs.Pairwise (fun a b => ∀ x, x ∈ a → x ∉ b)
+  cover : ∀ x, (∃ c ∈ cs, x ∈ c) ↔ x < g.n
+
+/-- loop invariant of the second pass: `st` is what is left of the stack `S`, `vis` the visited set,
+`acc` the components found so far -/
+structure Inv2 (g : Graph) (S st vis : List Nat) (acc : List (List Nat)) : Prop where
+  suffix : ∃ popped, S = popped ++ st ∧ ∀ z ∈ popped, z ∈ vis
+  predc : ∀ x y, g.Edge x y → y ∈ vis → x ∈ vis
+  union : ∀ x, x ∈ vis ↔ ∃ c ∈ acc, x ∈ c
+  classes : ∀ c ∈ acc, IsClass g c
+  disjoint : acc.Pairwise (fun a b => ∀ x, x ∈ a → x ∉ b)
+  lt : ∀ x ∈ vis, x < g.n
+
+theorem predc_reach {g : Graph} {vis : List Nat} (hp : ∀ x y, g.Edge x y → y ∈ vis → x ∈ vis)
+    {x y : Nat} (h : g.Reach x y) (hy : y ∈ vis) : x ∈ vis := by
+  induction h with
+  | refl _ => exact hy
+  | step he _ ih => exact hp _ _ he (ih hy)
+
+/-- the component collected by the reverse search from the top-most unvisited vertex is its class -/
+theorem component_is_class {g : Graph} (h : g.WF) {S st vis C : List Nat} {v : Nat}
+    (hS : StackOk g S) (hsuf : ∃ popped, S = popped ++ v :: st ∧ ∀ z ∈ popped, z ∈ vis)
+    (hp : ∀ x y, g.Edge x y → y ∈ vis → x ∈ vis) (hv : v ∉ vis)
+    (hC : SpecN (fun a b => g.Edge b a) [v] (fun u => u ∈ vis) C) :
+    ∀ y, y ∈ C ↔ (g.Reach v y ∧ g.Reach y v) := by
+  obtain ⟨popped, hSeq, hpop⟩ := hsuf
+  have hvS : v ∈ S := by rw [hSeq]; simp
+  have hvn : v < g.n := (hS.mem v).1 hvS
+  intro y
+  rw [hC.reach y]
+  simp only [List.mem_singleton, exists_eq_left]
+  constructor
+  · intro hr
+    have hyv : RA g.Edge (fun u => u ∈ vis) y v := hr.flip
+    have hyvis : y ∉ vis := hyv.src_not
+    have hRyv : g.Reach y v := (reach_iff_RA g y v).2 (hyv.mono (fun _ hf => hf.elim))
+    have hyn : y < g.n := RA.bounded (E := fun a b => g.Edge b a) (fun a b he => (h.edge_lt he).1) hr hvn
+    obtain ⟨z, hz, hzy, hyz, hidx⟩ := hS.order y ((hS.mem y).2 hyn) v hRyv
+    refine ⟨?_, hRyv⟩
+    have hnd := hS.nodup
+    rw [hSeq] at hnd hidx hz
+    have hvp : v ∉ popped := by
+      intro hm
+      have := (List.nodup_append.1 hnd).2.2 v hm v (by simp)
+      exact this rfl
+    rw [List.idxOf_append (a := v), if_neg hvp, List.idxOf_cons_self] at hidx
+    by_cases hzp : z ∈ popped
+    · exact absurd (predc_reach hp hyz (hpop z hzp)) hyvis
+    · rw [List.idxOf_append, if_neg hzp, List.idxOf_cons] at hidx
+      by_cases hzv : v = z
+      · rw [hzv]; exact hzy
+      · have e1 : (v == z) = false := by simpa using hzv
+        rw [e1] at hidx
+        simp at hidx
+        omega
+  · rintro ⟨hvy, hyv⟩
+    have : RA g.Edge (fun u => u ∈ vis) y v := by
+      apply ((reach_iff_RA g y v).1 hyv).avoid
+      intro p hyp _ hpvis
+      have hvp : g.Reach v p := hvy.trans ((reach_iff_RA g y p).2 hyp)
+      exact hv (predc_reach hp hvp hpvis)
+    exact this.flip
+
+theorem pass2_spec {g : Graph} (h : g.WF) {S : List Nat} (hS : StackOk g S) :
+    ∀ st vis acc, Inv2 g S st vis acc → ∃ cs, pass2 g st vis acc = .ok cs ∧ Good g cs := by
+  intro st
+  induction st with
+  | nil =>
+    intro vis acc hI
+    refine ⟨acc.reverse, by simp [pass2], ?_, ?_, ?_⟩
+    · intro c hc
+      exact hI.classes c (List.mem_reverse.1 hc)
+    · rw [List.pairwise_reverse]
+      exact hI.disjoint.imp (fun {a b} hab x hxb hxa => hab x hxa hxb)
+    · intro x
+      obtain ⟨popped, hSeq, hpop⟩ := hI.suffix
+      constructor
+      · rintro ⟨c, hc, hx⟩
+        exact hI.lt x ((hI.union x).2 ⟨c, List.mem_reverse.1 hc, hx⟩)
+      · intro hx
+        have hxS : x ∈ S := (hS.mem x).2 hx
+        rw [hSeq, List.append_nil] at hxS
+        obtain ⟨c, hc, hxc⟩ := (hI.union x).1 (hpop x hxS)
+        exact ⟨c, List.mem_reverse.2 hc, hxc⟩
+  | cons v st ih =>
+    intro vis acc hI
+    obtain ⟨popped, hSeq, hpop⟩ := hI.suffix
+    by_cases hvis : v ∈ vis
+    · have hI' : Inv2 g S st vis acc := by
+        refine ⟨⟨popped ++ [v], by simp [hSeq], ?_⟩, hI.predc, hI.union, hI.classes, hI.disjoint, hI.lt⟩
+        intro z hz
+        rcases List.mem_append.1 hz with hz | hz
+        · exact hpop z hz
+        · rw [List.mem_singleton.1 hz]; exact hvis
+      obtain ⟨cs, hcs, hgood⟩ := ih vis acc hI'
+      exact ⟨cs, by simp [pass2, hvis, hcs], hgood⟩
+    · have hvS : v ∈ S := by rw [hSeq]; simp
+      have hvn : v < g.n := (hS.mem v).1 hvS
+      obtain ⟨C, vis', hr, hext, hC⟩ := h.rdfs_ok g.fuel v vis [] hvn (fuel_ge g vis)
+      rw [List.append_nil] at hr
+      have hclass := component_is_class h hS ⟨popped, hSeq, hpop⟩ hI.predc hvis hC
+      have hvC : v ∈ C := (hclass v).2 ⟨Graph.Reach.refl v, Graph.Reach.refl v⟩
+      have hI' : Inv2 g S st vis' (C.reverse :: acc) := by
+        refine ⟨⟨popped ++ [v], by simp [hSeq], ?_⟩, ?_, ?_, ?_, ?_, ?_⟩
+        · intro z hz
+          rcases List.mem_append.1 hz with hz | hz
+          · exact (hext z).2 (Or.inl (hpop z hz))
+          · rw [List.mem_singleton.1 hz]; exact (hext v).2 (Or.inr hvC)
+        · intro x y he hy
+          rcases (hext y).1 hy with hy | hy
+          · exact (hext x).2 (Or.inl (hI.predc x y he hy))
+          · by_cases hx : x ∈ vis
+            · exact (hext x).2 (Or.inl hx)
+            · refine (hext x).2 (Or.inr (hC.closed hy ?_))
+              exact RA.step (hC.fresh hy) he (RA.refl hx)
+        · intro x
+          rw [hext x, hI.union x]
+          simp only [List.mem_cons, exists_eq_or_imp, List.mem_reverse]
+          exact Or.comm
+        · intro c hc
+          rcases List.mem_cons.1 hc with rfl | hc
+          · refine ⟨?_, List.pairwise_reverse.2 (hC.nodup.imp (fun h => h.symm)), ?_⟩
+            · intro hnil
+              have : v ∈ C.reverse := List.mem_reverse.2 hvC
+              rw [hnil] at this
+              exact absurd this List.not_mem_nil
+            · intro u hu w
+              rw [List.mem_reverse] at hu ⊢
+              obtain ⟨hvu, huv⟩ := (hclass u).1 hu
+              rw [hclass w]
+              constructor
+              · rintro ⟨hvw, hwv⟩
+                exact ⟨huv.trans hvw, hwv.trans hvu⟩
+              · rintro ⟨huw, hwu⟩
+                exact ⟨hvu.trans huw, hwu.trans huv⟩
+          · exact hI.classes c hc
+        · rw [List.pairwise_cons]
+          refine ⟨?_, hI.disjoint⟩
+          intro c hc x hx hxc
+          rw [List.mem_reverse] at hx
+          exact hC.fresh hx ((hI.union x).2 ⟨c, hc, hxc⟩)
+        · intro x hx
+          rcases (hext x).1 hx with hx | hx
+          · exact hI.lt x hx
+          · exact h.reach_lt ((hclass x).1 hx).1 hvn
+      obtain ⟨cs, hcs, hgood⟩ := ih vis' (C.reverse :: acc) hI'
+      exact ⟨cs, by simp [pass2, hvis, hr, hcs], hgood⟩
+
+/-- Kosaraju's algorithm as written in `scc.rs` is correct on every well-formed graph: it returns (no error,
+fuel not exhausted) the list of mutual-reachability classes -/
+theorem allScc_good {g : Graph} (h : g.WF) : ∃ cs, allScc g = .ok cs ∧ Good g cs := by
+  obtain ⟨vis, S, h1, hS⟩ := pass1_spec h
+  have hI : Inv2 g S S [] [] :=
+    ⟨⟨[], by simp, by simp⟩, by simp, by simp, by simp, List.Pairwise.nil, by simp⟩
+  obtain ⟨cs, h2, hgood⟩ := pass2_spec h hS S [] [] hI
+  exact ⟨cs, by simp [allScc, h1, h2], hgood⟩
+
+/-! ### the specification as one predicate, and the executable checker -/
+
+/-- `cs` is the partition of the vertices `0 .. n-1` into mutual-reachability classes -/
+structure IsSccPartition (g : Graph) (cs : List (List Nat)) : Prop where
+  /-- no empty block -/
+  nonempty : ∀ c ∈ cs, c ≠ []
+  /-- no vertex occurs twice, neither inside a block nor in two blocks -/
+  nodup : cs.flatten.Nodup
+  /-- the blocks hold exactly the vertices of the graph -/
+  cover : ∀ v, v ∈ cs.flatten ↔ v < g.n
+  /-- a block holds exactly the vertices mutually reachable with any of its members -/
+  classes : ∀ c ∈ cs, ∀ u ∈ c, ∀ v, v ∈ c ↔ (g.Reach u v ∧ g.Reach v u)
+
+theorem nodup_flatten_of (cs : List (List Nat)) (h1 : ∀ c ∈ cs, c.Nodup)
+    (h2 : cs.Pairwise (fun a b => ∀ x, x ∈ a → x ∉ b)) : cs.flatten.Nodup := by
+  induction cs with
+  | nil => simp
+  | cons c cs ih =>
+    rw [List.flatten_cons, List.nodup_append]
+    rw [List.pairwise_cons] at h2
+    refine ⟨h1 c List.mem_cons_self, ih (fun c' hc' => h1 c' (List.mem_cons_of_mem _ hc')) h2.2, ?_⟩
+    intro a ha b hb hab
+    obtain ⟨c', hc', hbc'⟩ := List.mem_flatten.1 hb
+    exact h2.1 c' hc' a ha (hab ▸ hbc')
+
+/-- in a repetition-free concatenation a vertex lies in one block only -/
+theorem unique_block (cs : List (List Nat)) (hnd : cs.flatten.Nodup) {c c' : List Nat} {v : Nat}
+    (hc : c ∈ cs) (hc' : c' ∈ cs) (hv : v ∈ c) (hv' : v ∈ c') : c' = c := by
+  induction cs with
+  | nil => exact absurd hc List.not_mem_nil
+  | cons a cs ih =>
+    rw [List.flatten_cons, List.nodup_append] at hnd
+    rcases List.mem_cons.1 hc with rfl | hc1 <;> rcases List.mem_cons.1 hc' with rfl | hc1'
+    · rfl
+    · exact absurd rfl (hnd.2.2 v hv v (List.mem_flatten.2 ⟨c', hc1', hv'⟩))
+    · exact absurd rfl (hnd.2.2 v hv' v (List.mem_flatten.2 ⟨c, hc1, hv⟩))
+    · exact ih hnd.2.1 hc1 hc1'
+
+theorem Good.isSccPartition {g : Graph} {cs : List (List Nat)} (h : Good g cs) : IsSccPartition g cs := by
+  refine ⟨fun c hc => (h.classes c hc).1, ?_, ?_, fun c hc => (h.classes c hc).2.2⟩
+  · exact nodup_flatten_of cs (fun c hc => (h.classes c hc).2.1) h.disjoint
+  · intro v
+    rw [List.mem_flatten]
+    exact h.cover v
+
+theorem mem_reachFrom {g : Graph} (h : g.WF) {v : Nat} (hv : v < g.n) (w : Nat) :
+    w ∈ reachFrom g v ↔ g.Reach v w := by
+  obtain ⟨new, vis', hr, _, hs⟩ := h.dfs_ok g.fuel v [] [] hv (fuel_ge g [])
+  have : reachFrom g v = new := by simp [reachFrom, hr]
+  rw [this, hs.reach w, reach_iff_RA]
+  simp only [List.mem_singleton, exists_eq_left]
+  exact RA.congr (fun v => by simp)
+
+theorem reachTable_get {g : Graph} {u : Nat} (hu : u < g.n) :
+    ((reachTable g)[u]?).getD [] = reachFrom g u := by
+  simp [reachTable, hu]
+
+theorem mutualIn_iff {g : Graph} (h : g.WF) {u v : Nat} (hu : u < g.n) (hv : v < g.n) :
+    mutualIn (reachTable g) u v = true ↔ (g.Reach u v ∧ g.Reach v u) := by
+  unfold mutualIn
+  rw [reachTable_get hu, reachTable_get hv, Bool.and_eq_true, List.contains_iff_mem,
+    List.contains_iff_mem, mem_reachFrom h hu, mem_reachFrom h hv]
+
+/-- the executable checker decides the specification -/
+theorem isSccPartition_iff {g : Graph} (h : g.WF) (cs : List (List Nat)) :
+    isSccPartition g cs = true ↔ IsSccPartition g cs := by
+  unfold isSccPartition
+  simp only [Bool.and_eq_true, List.all_eq_true, decide_eq_true_eq, List.mem_range,
+    List.contains_iff_mem, Bool.not_eq_true', List.isEmpty_eq_false_iff, beq_iff_eq]
+  constructor
+  · rintro ⟨⟨⟨⟨b1, b2⟩, b3⟩, b4⟩, b5⟩
+    refine ⟨b1, b2, fun v => ⟨b4 v, b3 v⟩, ?_⟩
+    intro c hc u hu v
+    have hun : u < g.n := b4 u (List.mem_flatten.2 ⟨c, hc, hu⟩)
+    by_cases hv : v < g.n
+    · rw [← mutualIn_iff h hun hv, ← b5 c hc u hu v hv, List.contains_iff_mem]
+    · constructor
+      · intro hvc
+        exact absurd (b4 v (List.mem_flatten.2 ⟨c, hc, hvc⟩)) hv
+      · rintro ⟨huv, _⟩
+        exact absurd (h.reach_lt huv hun) hv
+  · intro hp
+    refine ⟨⟨⟨⟨hp.nonempty, hp.nodup⟩, fun v hv => (hp.cover v).2 hv⟩, fun v hv => (hp.cover v).1 hv⟩, ?_⟩
+    intro c hc u hu v hv
+    have hun : u < g.n := (hp.cover u).1 (List.mem_flatten.2 ⟨c, hc, hu⟩)
+    rw [Bool.eq_iff_iff, mutualIn_iff h hun hv, List.contains_iff_mem]
+    exact hp.classes c hc u hu v
 
 end Scc
 end Compass
